@@ -26,6 +26,7 @@ RowOK(r) ==
                   ELSE Hdr(r, r.cname) = <<"v1", "v2">>
                /\ (r.body # "" => Hdr(r, "Content-Type") = <<"application/json; charset=utf-8">>)
       [] r.kind = "cors" ->
+            \* "" = no Origin header; "EMPTY" = an Origin header with an empty value (not a listed origin)
             LET ok == r.origin = "" \/ r.origin = "null" \/ r.lorigin \in {"http://a", "http://c"}
             IN IF r.method = "OPTIONS"
                THEN r.status = 200 /\ r.reqs = <<>> /\ (~ok => Hdr(r, "Access-Control-Allow-Origin") # <<r.origin>>)
